@@ -23,6 +23,16 @@ fn wrap<E: std::fmt::Debug + Clone + 'static>(
     (s, 0u8..6).prop_map(move |(est, rep_pool)| Case { est, rep_pool, children })
 }
 
+/// K-means cases cost 14 fits of thousands of rows each and their data hang off a seed, so proptest's
+/// shrinking (thousands of re-evaluations) buys nothing: the failing case is reported as generated.
+mod kmeans_noshrink {
+    pub use crate::kmeans::Cfg;
+    use proptest::prelude::*;
+    pub fn strategy(t: vengine::Tier) -> impl Strategy<Value = Cfg> {
+        crate::kmeans::strategy(t).no_shrink()
+    }
+}
+
 macro_rules! subs {
     ($( ($name:literal, $m:ident, $quick:expr, $thorough:expr, $chunks:expr) ),* $(,)?) => {
         pub fn child_main(spec: &str) -> ! {
@@ -43,7 +53,7 @@ macro_rules! subs {
 }
 
 subs![
-    ("kmeans", kmeans, 64, 640, 16),
+    ("kmeans", kmeans_noshrink, 64, 640, 16),
     ("cluster", cluster, 120, 1500, 8),
     ("tree_bayes", tree_bayes, 240, 3000, 8),
     ("svm", svm, 80, 1000, 8),
